@@ -416,6 +416,9 @@ def render_xlsx(wb, knobs=None):
                         f'localSheetId="{t["scope"]}">'
                         f'{escape(name_target_text(t))}</definedName>')
         wbx += '</definedNames>'
+    if wb.get('calc_pr'):
+        # workbook-level calculation options (iterate, calcMode ...)
+        wbx += f'<calcPr {wb["calc_pr"]}/>'
     wbx += '</workbook>'
     parts['xl/workbook.xml'] = wbx
     rels = f'{XML}<Relationships xmlns="{NS_PKG}">'
